@@ -17,6 +17,7 @@ import (
 	"strings"
 	"testing"
 	"time"
+	"unicode/utf8"
 
 	"pgregory.net/rapid"
 
@@ -55,7 +56,7 @@ type Op struct {
 }
 
 type Case struct {
-	ErrStyle string `json:"err_style,omitempty"` // how the storage words its own refusals (vkit.Store.refuse)
+	ErrStyle   string   `json:"err_style,omitempty"` // how the storage words its own refusals (vkit.Store.refuse)
 	Router     string   `json:"router"`
 	Hosts      bool     `json:"hosts,omitempty"` // issuer derived from the Host header: two issuers share storage and keys
 	Alg        string   `json:"alg"`
@@ -216,6 +217,7 @@ type mtok struct {
 	aud, scopes           []string
 	revoked, expired      bool
 	ended                 bool
+	garbled               bool  // issued (by a lax storage) for a subject that is not even valid UTF-8: tracked, never asserted on
 	link                  *mtok // refresh <-> access of the same grant
 }
 
@@ -565,6 +567,9 @@ func (e *env) readVerdict(p presented, h int, accessOnly bool) (int, string) {
 		return -1, p.class
 	}
 	t := p.tok
+	if t.garbled || (t.link != nil && t.link.garbled) {
+		return 0, "token-of-garbled-subject"
+	}
 	if !t.live() {
 		return -1, t.death()
 	}
@@ -712,6 +717,7 @@ func (e *env) adopt(resp *vkit.Resp, client, subject, flow string, h int) *grant
 		// a success the model did not demand (grey: lax storage, unbound token ...): the issued token is tracked as the
 		// storage recorded it, so that later strings that name it are not mistaken for garbage
 		subject = snap.Subject
+		t.garbled = !utf8.ValidString(subject)
 	}
 	if snap.ClientID != client || snap.Subject != subject {
 		e.res.Label("issue-mismatch:" + flow)
@@ -864,7 +870,7 @@ func (e *env) userinfoP(o Op, p presented, h int) {
 	case v < 0 && ok:
 		e.fail("C08:userinfo-honours:"+why, "userinfo answered %d with claims for a token string that must not be honoured (%s; forge=%q): %s", resp.Status, why, p.forge, resp.Describe())
 	}
-	if ok && p.tok != nil && sub != p.tok.subject {
+	if ok && p.tok != nil && sub != p.tok.subject && !p.tok.garbled { // JSON cannot carry the invalid bytes of a subject a lax storage accepted from a forged token
 		e.fail("C08:userinfo-wrong-subject", "userinfo for the token of %s returned sub=%q: %s", p.tok.subject, sub, resp.Describe())
 	}
 	if !ok {
@@ -942,7 +948,7 @@ func (e *env) introspectP(o Op, p presented, h int) {
 		e.fail("C08:introspect-active:"+why, "introspection reported active:true although it must not (%s; caller %s cred %s; forge=%q): %s", why, cl.ID, o.Cred, p.forge, resp.Describe())
 	}
 	if active && p.tok != nil {
-		if s, _ := m["sub"].(string); s != p.tok.subject {
+		if s, _ := m["sub"].(string); s != p.tok.subject && !p.tok.garbled {
 			e.fail("C08:introspect-wrong-claims", "active answer for the token of %s carries sub=%q", p.tok.subject, s)
 		}
 		if s, _ := m["client_id"].(string); s != p.tok.client {
